@@ -164,6 +164,62 @@ def classify_int_source(prog, ev, t, validators):
     return "unvalidated", "`%s`" % t
 
 
+def _through_param(prog, ev, fn, t, validators, tops, depth=0):
+    """t is param_i(.field)* of fn: classify the corresponding component of the argument at every call of fn in the parser.
+    -> [classification...] or None when t is not rooted in a parameter / fn is never called"""
+    path = []
+    x = t
+    while x.k in ("field", "proj") and len(path) < 4:
+        path.append(str(x.a[1]))
+        x = x.a[0]
+    if x.k != "param" or depth > 2:
+        return None
+    idx = x.a[0]
+    out = []
+    for q in tops:
+        if q == fn:
+            continue
+        try:
+            _, trace, _ = ev.traced(q)
+        except Exception:
+            continue
+        for c in trace:
+            if c.k == "call" and c.a[0] == fn and len(c.a) > idx + 1:
+                a = c.a[idx + 1]
+                ok = True
+                # the argument is the Ok payload of a local builder: look at what it returns
+                for _ in range(2):
+                    a0 = a.a[0] if a.k == "try" else a
+                    if a0.k == "call" and a0.a[0] in prog.bodies and prog.items.get(a0.a[0], {}).get("kind") in ("Fn", "AssocFn"):
+                        sm = ev.summary(a0.a[0])
+                        oks = [y for y in subterms(sm) if y.k == "adt" and y.a[0] == "core::result::Result" and y.a[1] == "Ok"]
+                        if a.k == "try" and len(oks) == 1:
+                            a = oks[0].a[2][0][1]
+                            q_inner = a0.a[0]
+                            continue
+                    break
+                for seg in reversed(path):
+                    if a.k == "tuple" and seg.isdigit() and int(seg) < len(a.a):
+                        a = a.a[int(seg)]
+                    elif a.k == "adt" and seg in dict(a.a[2]):
+                        a = dict(a.a[2])[seg]
+                    else:
+                        ok = False
+                        break
+                if not ok:
+                    out.append(("unvalidated", "`%s` (argument of %s)" % (c.a[idx + 1], fn.rsplit("::", 1)[-1])))
+                    continue
+                for alt in alternatives(prog, ev, a):
+                    cl = classify_int_source(prog, ev, alt, validators)
+                    if cl[0] == "unvalidated":
+                        sub = _through_param(prog, ev, q, alt, validators, tops, depth + 1)
+                        if sub is not None:
+                            out.extend(sub)
+                            continue
+                    out.append(cl)
+    return out or None
+
+
 def int_slot_sites(prog, ev):
     """Every construction of an integer-carrying AST variant in the parser's reach.
     -> [(slot label, body path, THIR node, [(classification, detail)...])]"""
@@ -196,7 +252,17 @@ def int_slot_sites(prog, ev):
                         if ft is None:
                             continue
                         alts = alternatives(prog, ev, ft)
-                        cls = [classify_int_source(prog, ev, a, validators) for a in alts]
+                        cls = []
+                        for a in alts:
+                            c = classify_int_source(prog, ev, a, validators)
+                            if c[0] == "unvalidated":
+                                # a pass-through constructor (From impl, `new`): the value is a (component of a) parameter, so
+                                # what matters is what its callers hand in
+                                via = _through_param(prog, ev, p, a, validators, tops)
+                                if via is not None:
+                                    cls.extend(via)
+                                    continue
+                            cls.append(c)
                         out.append(("%s::%s.%s" % (adt.rsplit("::", 1)[1], variant, f), p, x.n, cls))
     return out, validators
 
